@@ -143,6 +143,9 @@ type Client struct {
 	mu    sync.Mutex
 	calls map[uint64]*Call
 	list  []*Call
+
+	unionOnce sync.Once
+	union     *puppet.Configuration
 }
 
 // IsStream etc. classify puppet methods.
@@ -779,6 +782,14 @@ func (c *Client) NewConfigUnrecordedWithNew(servers []int, viaList, addNode bool
 	if len(servers) > 1 {
 		_, _ = c.Mgr.NewConfiguration(&qspec{c}, cfg.WithoutNodes(c.IDs[servers[0]]))
 		_, _ = c.Mgr.NewConfiguration(&qspec{c}, cfg.And(c.Configs[0]))
+	}
+	// a long-lived configuration that is itself a union of overlapping configurations (its node
+	// slice was de-duplicated), extended by several threads at once
+	c.unionOnce.Do(func() {
+		c.union, _ = c.Mgr.NewConfiguration(&qspec{c}, c.Configs[0].And(c.Configs[0]))
+	})
+	if c.union != nil {
+		_, _ = c.Mgr.NewConfiguration(&qspec{c}, c.union.And(cfg))
 	}
 	return nil
 }
